@@ -203,17 +203,17 @@ contract("usim._primitives.timing.Moment.__unsubscribe__", allocates=False,
 INVT = dict(chain_ensures=True, check_frame=False, props=["C08"])
 contract("usim._primitives.timing.After.__invert__",
          params={"self": REF("After")}, returns=REF("Before"),
-         ensures=["exact_class(result, Before)", "result.date == self.date", "bool(result) == (not bool(self))"],
+         ensures=["exact_class(result, Before)", "result.date == self.date", "bool(result) == (not bool(self))", "forall(Condition, lambda c: implies(not fresh_obj(c), bool(c) == old(bool(c))))"],
          modifies=["Before.date", "Notification._waiting"], **INVT)
 contract("usim._primitives.timing.Before.__invert__",
          params={"self": REF("Before")}, returns=REF("After"),
-         ensures=["exact_class(result, After)", "result.date == self.date", "bool(result) == (not bool(self))"],
+         ensures=["exact_class(result, After)", "result.date == self.date", "bool(result) == (not bool(self))", "forall(Condition, lambda c: implies(not fresh_obj(c), bool(c) == old(bool(c))))"],
          modifies=["After.date", "After._scheduled", "After.trigger_due", "Notification._waiting"], **INVT)
 contract("usim._primitives.timing.Eternity.__invert__",
          params={"self": REF("Eternity")}, returns=REF("Instant"),
-         ensures=["exact_class(result, Instant)", "bool(result) == (not bool(self))"],
+         ensures=["exact_class(result, Instant)", "bool(result) == (not bool(self))", "forall(Condition, lambda c: implies(not fresh_obj(c), bool(c) == old(bool(c))))"],
          modifies=["Notification._waiting"], **INVT)
 contract("usim._primitives.timing.Instant.__invert__",
          params={"self": REF("Instant")}, returns=REF("Eternity"),
-         ensures=["exact_class(result, Eternity)", "bool(result) == (not bool(self))"],
+         ensures=["exact_class(result, Eternity)", "bool(result) == (not bool(self))", "forall(Condition, lambda c: implies(not fresh_obj(c), bool(c) == old(bool(c))))"],
          modifies=["Notification._waiting"], **INVT)
